@@ -140,10 +140,11 @@ fn pass_2_internal(segment: &Segment, common_context: &CommonContext) -> Result<
             }
             Item::Set(name, expr) => {
                 let value = expr.run(common_context)?;
+                let key = name.to_lowercase();
                 if common_context.exist(name) {
                     let mut sets = common_context.sets.borrow_mut();
-                    if let Some(_) = sets.get(name) {
-                        sets.insert(name.clone(), Expr::Const(value));
+                    if let Some(_) = sets.get(&key) {
+                        sets.insert(key, Expr::Const(value));
                     } else {
                         // TODO: add display current string of mistake and previous location
                         bail!("Identifier {} is used twice, {}", name, line);
@@ -152,7 +153,7 @@ fn pass_2_internal(segment: &Segment, common_context: &CommonContext) -> Result<
                     common_context
                         .sets
                         .borrow_mut()
-                        .insert(name.clone(), Expr::Const(value));
+                        .insert(key, Expr::Const(value));
                 }
             }
             _ => {}
